@@ -21,11 +21,13 @@ CHECKS = {
                      "from the AMQP specification). Decoder half: every spec-valid variant produced by Enc(v, mode) x descriptor form x trailing-null form must "
                      "decode to the same value. The oracle itself is model-checked (Dec o Enc = id for all modes) in the same run.",
                 note="trusted: reference Dec/Enc in AmqpCodec.tla (cross-checked against each other by TLC), harness transcription"),
-    "C04": dict(technique="TLA+-generated untrusted inputs (exhaustive short strings, all single-byte corruptions and truncations of seed encodings, nesting / huge-length families) run through 14 decoder entry points (the last one puts the input behind AMQP and SASL frame headers with data offsets 0, 1, 3, 64, 255) under panic / abort / allocation / CPU monitors; validity and meaning decided by the TLA+ reference decoder in TLC",
+    "C04": dict(technique="TLA+-generated untrusted inputs (exhaustive short strings, all single-byte corruptions and truncations of seed encodings, nesting / huge-length families) run through 15 decoder entry points (incl. lazy values through the slice and the stream reader, and the input behind AMQP and SASL frame headers with data offsets 0, 1, 3, 64, 255) under panic / abort / allocation / CPU monitors; validity and meaning decided by the TLA+ reference decoder in TLC",
                 design="4/C04",
                 text="TLC enumerates the inputs of MC_Decode.tla; the harness decodes each through every public entry point in a restartable child with a 2 MiB "
                      "stack, a counting allocator and thread-CPU timing; DecodeTrace.tla (TLC) recomputes the reference verdict from the logged bytes and evaluates "
-                     "C04_Total / C04_Alloc / C04_Cpu / C04_Idempotent / C04_AcceptsValid per record. Exhaustive for the generated space.",
+                     "C04_Total / C04_Alloc / C04_Cpu / C04_Idempotent / C04_AcceptsValid per record. Exhaustive for the generated space. An input on which the child dies (stack overflow, refused allocation) or exceeds "
+                     "5 s of CPU (a watchdog ends the child) is run again through every entry point in a child of its own, so the record names the decoders that die: twelve nesting families (list, map, array, described with ulong / symbol / list values, mixed, message body) "
+                     "at depths 8 .. 30 000; the open finding covers only the Value-building entry points from depth 1 000.",
                 note="trusted: the monitors (catch_unwind + child exit status, counting allocator, CLOCK_THREAD_CPUTIME); bounds 2 KiB per input byte + 512 KiB and 2 s CPU are the weaker reading of 'out of proportion'"),
     "C06": dict(technique="TLC model check of the frame-splitting rule and of the stream reader over all partitions (Framing.tla, StreamDec.tla); TLC-generated frames / partitions replayed through the real Transport; written and decoded frames validated in TLC (FramingTrace.tla)",
                 design="4/C06",
@@ -35,28 +37,29 @@ CHECKS = {
                      "Transport's Sink and ~1400 partitions of a five-frame stream through its Stream; FramingTrace.tla decodes each performative with the "
                      "reference decoder and evaluates the same clauses on what the code wrote / read.",
                 note="trusted: harness frame-header parser, performative extent finder and payload pattern; Transport is driven through its public bind / set_*_max_frame_size API"),
-    "C07": dict(technique="TLC model check of session flow control in serial arithmetic modulo 8 (SessionWin.tla, safety + leads-to) incl. the negative check of the code's deviation; TLC-enumerated send / flow / incoming-transfer scripts (SessGen.tla) executed lock-step against the real client for id spaces at 0, 2^31 and just below 2^32; traces validated by the TLA+ observer; plus long mixed histories sampled by TLC's simulation mode from a state-aware generator (MixGen.tla), executed and validated the same way",
+    "C07": dict(technique="inductive invariant of the unbounded counter model FlowInd.tla discharged by Apalache (base, step, safety; two refuted variants as negative controls); TLC model check of session flow control in serial arithmetic modulo 8 (SessionWin.tla, safety + leads-to) incl. the negative check of the code's deviation; TLC-enumerated send / flow / incoming-transfer scripts (SessGen.tla) executed lock-step against the real client for id spaces at 0, 2^31 and just below 2^32; traces validated by the TLA+ observer; plus long mixed histories sampled by TLC's simulation mode from a state-aware generator (MixGen.tla), executed and validated the same way",
                 design="4/C07",
                 text="MC: window safety w.r.t. the last processed flow, FIFO, no loss / duplication, accounting and drain (held frames leave once the window is known "
                      "open) for every interleaving of submit / emit / peer flow (any window 0..2, any reached next-incoming-id) and ids wrapping mod M. "
                      "Conformance: every script of depth 3 (thorough 4) over a 10-event alphabet x 3 (4) id spaces; the observer evaluates C07_WindowSafety, "
                      "C07_Fifo, C07_Accounting_Out/In per frame and C07_Drain at every quiescence point, in the strict (per-frame) reading and against the named "
-                     "deviation model of the open finding.",
+                     "deviation model of the open finding. FlowInd.tla: the same rules over unbounded integers (any window, credit, number of frames) with an inductive invariant checked by Apalache. "
+                     "Listener scripts include a flow that names a link the application has not accepted yet and reopens the window (FlowPend).",
                 note="trusted: lock-step quiescence (a transfer that is not on the wire at Quiesce is held back); payload-to-message matching in the harness"),
-    "C08": dict(technique="TLC model checks: link-credit accounting in serial arithmetic (Credit.tla) and the implementation-shaped wait/notify race (CreditWake.tla, positive and negative variant); TLC-enumerated grant / drain / echo / send scripts (CreditGen.tla) executed lock-step, including scripts that park the sender at the cfg schedule point credit.after_failed_check while the grant is applied; traces validated by the TLA+ observer; plus long mixed histories sampled by TLC's simulation mode from a state-aware generator (MixGen.tla), executed and validated the same way",
+    "C08": dict(technique="inductive invariant of the unbounded counter model FlowInd.tla discharged by Apalache (base, step, safety; two refuted variants as negative controls); TLC model checks: link-credit accounting in serial arithmetic (Credit.tla) and the implementation-shaped wait/notify race (CreditWake.tla, positive and negative variant); TLC-enumerated grant / drain / echo / send scripts (CreditGen.tla) executed lock-step, including scripts that park the sender at the cfg schedule point credit.after_failed_check while the grant is applied; traces validated by the TLA+ observer; plus long mixed histories sampled by TLC's simulation mode from a state-aware generator (MixGen.tla), executed and validated the same way",
                 design="4/C08",
                 text="MC: deliveries started never exceed the limit of the last processed flow, drain is answered, for all flow histories with wrapping counts; the wait for "
                      "credit always wakes when the future is created before the check and TLC refutes the check-then-create order (the run fails as a tool error if that "
                      "refutation disappears). Conformance: depth-3 (thorough 4) scripts over a 10-event alphabet for delivery-counts at 1000 and next to 2^32, plus hook scripts "
                      "replaying the dangerous interleaving against the real Consumer/Producer; C08_WithinCredit, C08_OnePerDelivery per frame, C08_Drain_Q / C08_Echo_Q / "
-                     "C08_Wake at every quiescence point.",
+                     "C08_Wake at every quiescence point. Client scripts include detach-without-closing + resume with the receiver's grant written right behind its attach (DetResume).",
                 note="trusted: the schedule-point facade (fe2o3-amqp/src/verif.rs, add-only, cfg-guarded); lock-step quiescence"),
-    "C09": dict(technique="TLC model check of link-credit arithmetic (Credit.tla); TLC-enumerated transfer / recv / dispose / set_credit / drain scripts (RecvGen.tla) against real client- and listener-attached receivers; traces validated by the TLA+ observer; plus long mixed histories sampled by TLC's simulation mode from a state-aware generator (MixGen.tla), executed and validated the same way",
+    "C09": dict(technique="inductive invariant of the unbounded counter model FlowInd.tla discharged by Apalache (base, step, safety; two refuted variants as negative controls); TLC model check of link-credit arithmetic (Credit.tla); TLC-enumerated transfer / recv / dispose / set_credit / drain scripts (RecvGen.tla) against real client- and listener-attached receivers; traces validated by the TLA+ observer; plus long mixed histories sampled by TLC's simulation mode from a state-aware generator (MixGen.tla), executed and validated the same way",
                 design="4/C09",
                 text="Conformance: depth-3 (thorough 4) scripts over a 10-event alphabet for Auto(1), Auto(2)+auto-accept with the sender's delivery-count next to 2^32, Manual and a "
                      "listener-accepted link. Clauses: C09_FlowCount (reported delivery-count between deliveries handed over and deliveries arrived, from the sender's stated "
                      "count), C09_FlowCredit (set_credit(n) is announced as n), C09_FlowCreditAuto, C09_Enforced (deliveries handed to the application never outnumber the largest "
-                     "limit announced), C09_Replenished_Q (Auto: with nothing held or queued the sender has credit left at every quiescence point).",
+                     "limit announced), C09_Replenished_Q (Auto: with nothing held or queued the sender has credit left at every quiescence point), C09_TopUpUsable (credit is re-issued with the drain flag set only when the application asked for a drain).",
                 note="weaker readings chosen where the text is ambiguous (see DESIGN.md 7): arrivals are counted when the link endpoint takes them in; enforcement is by count"),
     "C10": dict(technique="TLC model check of reassembly with omitted / repeated / contradictory continuation fields, aborts and a second interleaved link (Reasm.tla); TLC-generated fragmentations (RecvGen.tla, FragGen.tla: every 2-frame split offset, grid of 3-frame splits) replayed against the real receiver; traces validated by the TLA+ observer; plus long mixed histories sampled by TLC's simulation mode from a state-aware generator (MixGen.tla), executed and validated the same way",
                 design="4/C10",
@@ -71,12 +74,14 @@ CHECKS = {
                      "19 parameters incl. 1-3 concurrent links on 1-2 sessions, a link max-message-size and manual credit re-granted over queued deliveries (784 runs in the quick tier): C01_Order, C01_Once, C01_NotBeforeSent, C01_Routing, C01_Intact (byte-for-byte re-encoding incl. all sections) on every recv per link, C01_Delivers (nothing "
                      "stalls or is lost) and C01_Outcome (every send reports accepted exactly once) at the end.",
                 note="schedules are sampled (chunk patterns, capacities, randomised select, multi-threaded runs in thorough), not enumerated; the capacity of the in-memory transport is not varied (DESIGN.md)"),
-    "C02": dict(technique="TLC model check of sender-side settlement under arbitrary disposition histories (Settle.tla, safety + echo liveness); TLC-enumerated disposition / batchable-send / await scripts over two links (SettleGen.tla) and receiver-side disposal scripts (RecvGen.tla) executed lock-step; traces validated by the TLA+ observer; plus long mixed histories sampled by TLC's simulation mode from a state-aware generator (MixGen.tla), executed and validated the same way",
+    "C02": dict(technique="TLC model check of sender-side settlement under arbitrary disposition histories (Settle.tla, safety + echo liveness); TLC-enumerated disposition / batchable-send / await scripts over two links (SettleGen.tla) and receiver-side disposal scripts (RecvGen.tla) executed lock-step; traces validated by the TLA+ observer; the link-resumption decision table (ResumeTable.tla, model-checked in Resume.tla) replayed cell by cell into the real resume_delivery through a cfg hook and compared by TLC (ResumeTrace.tla); plus long mixed histories sampled by TLC's simulation mode from a state-aware generator (MixGen.tla), executed and validated the same way",
                 design="4/C02",
                 text="MC: every send resolves at most once, with the first terminal state reported for its own delivery-id (pre-settled: accepted at once); settled deliveries leave the "
                      "unsettled map; in mode second every terminal unsettled disposition is eventually echoed. Conformance: C02_OwnOutcome on every send / await result, "
                      "C02_Echo_Q at quiescence, C02_NoEchoForUnknown / C02_EchoSettles on the EUT's sender-role dispositions, C02_RangeExact / C02_OwnState on its receiver-role "
-                     "dispositions (ranges cover exactly deliveries the application disposed that way; unsettled in mode second).",
+                     "dispositions (ranges cover exactly deliveries the application disposed that way; unsettled in mode second). The settle modes in use are those stated by their owner (snd by the sender, rcv by the receiver), "
+                     "also when the receiver answers a different rcv-settle-mode than was proposed. Resumption: Resume.tla (a link that breaks at any moment and is resumed once) shows the AMQP 2.6.13 table reports the receiver's outcome and never "
+                     "retransmits after it; all 132 cells (local state x receiver's entry) are put to the real decision function: C02_ResumeOutcome.",
                 note="the 'neither side retains the delivery' clause is checked on the model only (no accessor for the unsettled maps is used yet)"),
     "C11": dict(technique="TLC model check of handle allocation / release and serial delivery-ids (Ids.tla); lifecycle, link-split and receive scripts (LifeGen, SessGen, RecvGen) executed lock-step; traces validated by the TLA+ observer; plus long mixed histories sampled by TLC's simulation mode from a state-aware generator (MixGen.tla), executed and validated the same way",
                 design="4/C11",
@@ -116,7 +121,8 @@ CHECKS = {
                 text="MC: with the reassembly buffer owned by the link, completed recvs return exactly the deliveries sent whatever is cancelled; enqueued transfers are unique and ordered. "
                      "Conformance: recv side depth 4 (thorough 5-6) over {recv, cancel, 1-frame, 2-frame halves}, send side depth 3 (4) over 10 events incl. sends cancelled after 30 scheduler "
                      "turns: C10_Exact / C10_NotBefore on every recv result, C16_NoLoss and C16_NeverPartial at the end, C16_LaterIntact / C07_Fifo / C11_ContinuationId per frame, "
-                     "C08_Wake (not starved of credit) at quiescence.",
+                     "C08_Wake (not starved of credit) at quiescence. Parked part: a send frozen after its first poll behind a full link-to-session channel (poll-limited future) while a grant or a settlement of an older delivery is processed, then dropped; "
+                     "a multi-frame send dropped between its frames; the sends that follow live on the credit granted meanwhile; the outcomes of all earlier batchable sends are awaited (C02_OwnOutcome / C02_Resolves_Q: a cancelled send corrupts no other delivery).",
                 note="cancellation points are those a script can reach between scheduler turns, not every poll of the future"),
     "C18": dict(technique="TLC model check of the resource-side transaction pipeline at the implementation's grain (Txn.tla: wire -> session engine -> coordinator task -> session control queue; isolation, atomicity, discharge-once; the wire-order variant as oracle and the deferred variant refuted for late posts as a negative control); TLC-enumerated controller behaviours played against a real listener with a control-link acceptor (TxnGen.tla) and TLC-enumerated application behaviours of the real controller (OwnedTransaction) against a scripted coordinator (TxnCtlGen.tla); traces validated in TLC against the sequential reading (TxnTrace.tla)",
                 design="4/C18",
